@@ -75,8 +75,10 @@ func (s *Service) Init(ctx context.Context) error {
 	// some instances may be in a running state, put them in StatusSystemStopped state for now
 	for _, instance := range instances {
 		s.instanceNames[instance.Config.Name] = true
-		if instance.GetStatus() == StatusRunning {
-			// change status to "systemStopped" to mark which pipeline was running
+		if status := instance.GetStatus(); status == StatusRunning || status == StatusRecovering {
+			// change status to "systemStopped" to mark which pipeline was running;
+			// a pipeline that was waiting for its next recovery attempt was live
+			// too, nothing in this process is going to restart it otherwise
 			instance.SetStatus(StatusSystemStopped)
 		}
 
